@@ -39,14 +39,15 @@ Proof. exact split_invalid. Qed.
 Print Assumptions C33_split_rejects.
 
 (* 4. splitting a document by span: the parts' marker sequences, concatenated in order, are the
-      original marker sequence; every part holds exactly the pages of its span; and all observable
-      page attributes are preserved too when no page relies on an inherited CropBox / a non-positive
-      inherited rotation (xsafe; see C33_split_pages_refuted for why this side condition is needed). *)
+      original marker sequence; every part holds exactly the pages of its span; and (extra fact, the
+      attributes are C32's business) every observable page attribute is preserved too, rotation taken
+      modulo 360, for documents whose pages have a MediaBox (xsafe) -- inherited CropBox and Rotate
+      included since addPage makes them explicit. *)
 Theorem C33_split_span : forall t span, wf_count t = true -> 1 <= span ->
   exists parts docs,
     span_parts (count_of t) span = Ok parts /\ split_span t span = Ok docs /\
     concat (map ids_of docs) = ids_of t /\
-    (Forall xsafe (rpages t) -> concat (map pages_of docs) = pages_of t) /\
+    (Forall xsafe (rpages t) -> concat (map npages_of docs) = npages_of t) /\
     Forall2 part_ok docs parts.
 Proof. exact split_span_main. Qed.
 Print Assumptions C33_split_span.
@@ -55,21 +56,18 @@ Theorem C33_split_along : forall t nrs, wf_count t = true -> valid_page_nrs (cou
   exists parts docs,
     along_parts (count_of t) nrs = Ok parts /\ split_along t nrs = Ok docs /\
     concat (map ids_of docs) = ids_of t /\
-    (Forall xsafe (rpages t) -> concat (map pages_of docs) = pages_of t) /\
+    (Forall xsafe (rpages t) -> concat (map npages_of docs) = npages_of t) /\
     Forall2 part_ok docs parts.
 Proof. exact split_along_main. Qed.
 Print Assumptions C33_split_along.
 
-(* the full-strength statement "concat (map pages_of docs) = pages_of t" for ALL documents is FALSE for
-   the transcribed code: addPage copies inherited MediaBox/Rotate/Resources into the page but not an
-   inherited CropBox, and writes Rotate only if inherited%360 > 0. *)
-Theorem C33_split_pages_refuted :
-  (wf_count doc_inh_crop = true /\ exists docs, split_span doc_inh_crop 1 = Ok docs /\
-     concat (map pages_of docs) <> pages_of doc_inh_crop) /\
-  (wf_count doc_inh_negrot = true /\ exists docs, split_span doc_inh_negrot 1 = Ok docs /\
-     concat (map pages_of docs) <> pages_of doc_inh_negrot).
-Proof. exact split_refuted. Qed.
-Print Assumptions C33_split_pages_refuted.
+(* the two documents on which the code before the fixes lost an inherited CropBox / a negative inherited
+   rotation are now reproduced exactly *)
+Theorem C33_split_former_witnesses :
+  (exists docs, split_span doc_inh_crop 1 = Ok docs /\ concat (map pages_of docs) = pages_of doc_inh_crop) /\
+  (exists docs, split_span doc_inh_negrot 1 = Ok docs /\ concat (map pages_of docs) = pages_of doc_inh_negrot).
+Proof. exact split_witnesses_fixed. Qed.
+Print Assumptions C33_split_former_witnesses.
 
 (* 5. merge without dividers: for any number of documents of any size the result shows exactly the
       concatenation of their page lists (all attributes, thanks to the neutral root), /Count stays right *)
@@ -133,7 +131,7 @@ Example C33_nonvacuous :
   (exists t, zip_merge doc_plain ex_doc = Ok t /\ ids_of t = [7; 1; 2; 3]).
 Proof.
   split; [reflexivity|]. split.
-  { repeat constructor; simpl; try congruence; intros; try (right; reflexivity); try (left; reflexivity). }
+  { repeat constructor; unfold xsafe; simpl; congruence. }
   split; [reflexivity|]. split; [reflexivity|]. split; [reflexivity|]. split; [reflexivity|].
   repeat split; eexists; split; vm_compute; reflexivity.
 Qed.
